@@ -90,6 +90,17 @@ def run_case(ctx, m, S, pins, idx, params, exc, rep):
         for p in pins:
             if abs(a3[p.name] - (a1[p.name] + c * a2[p.name])) > 1e-9 * (1 + abs(a3[p.name])):
                 return bad(ctx, "C15:not-linear", f"get_output is not linear at {p.name}", rep)
+        # --- read-outs do not remember earlier excitations: the sparse dictionary again, then one pin at a time
+        a4 = m.get_output(dict(exc), power=False)
+        for p, k in zip(pins, idx):
+            if abs(a4[p.name] - d0[k]) > 1e-10 * max(1, abs(d0[k])):
+                return bad(ctx, "C15:get_output-remembers", f"get_output at {p.name} after other read-outs is not (S u)[{k}]: unspecified pins do not count as zero", rep)
+        for q, b in zip(pins, idx):
+            col = m.get_output({q.name: 1.0}, power=False)
+            pcol = m.get_output({q.name: 1.0}, power=True)
+            for p, a in zip(pins, idx):
+                if abs(col[p.name] - S[0, a, b]) > 1e-10 * max(1, abs(S[0, a, b])) or abs(pcol[p.name] - abs(S[0, a, b]) ** 2) > 1e-10 * max(1, abs(S[0, a, b]) ** 2):
+                    return bad(ctx, "C15:get_output-remembers", f"get_output({{{q.name}: 1}}) at {p.name} is not S[{a},{b}]", rep)
         # --- sweep tables
         fo = m.get_full_output(dict(exc), power=False)
         fp = m.get_full_output(dict(exc), power=True)
@@ -104,6 +115,13 @@ def run_case(ctx, m, S, pins, idx, params, exc, rep):
                 ev = v[0] if len(v) == 1 else v[k]
                 if ns > 1 and abs(fo[nm].iloc[k] - ev) > 0:
                     return bad(ctx, "C15:param-column", f"parameter column {nm} row {k} wrong", rep)
+        if pins:
+            q, b = pins[-1], idx[-1]
+            f1 = m.get_full_output({q.name: 1.0}, power=False)
+            for k in range(ns):
+                for p, a in zip(pins, idx):
+                    if abs(f1[p.name].iloc[k] - S[k, a, b]) > 1e-10 * max(1, abs(S[k, a, b])):
+                        return bad(ctx, "C15:get_full_output-remembers", f"get_full_output({{{q.name}: 1}}) row {k} at {p.name} is not S[{k},{a},{b}]", rep)
         (p, a), (q, b) = (pins[0], idx[0]), (pins[-1], idx[-1])
         gd = m.get_data(p.name, q.name)
         if len(gd) != ns:
